@@ -5,7 +5,8 @@ From Coq Require Extraction.
 From Coq Require Import ExtrOcamlBasic.
 From Lox Require Import Rang3.RangeModel Rang3.ClassModel.
 From Lox Require Import Parse.Grammar Parse.Tables Parse.ParseRuntime Parse.Validator Parse.Actions.
-From Lox Require Import Lex.LexRuntime Lex.LexAuto Lex.NfaRef Lex.LexEquiv.
+From Lox Require Import Lex.LexRuntime Lex.LexAuto Lex.NfaRef Lex.LexEquiv Lex.RegexRef.
+From Lox Require Import Gen.TableEnc Gen.Numbering Gen.FirstModel Gen.ResolveModel Gen.LALRRef.
 
 Extraction Language OCaml.
 Extraction "loxmodel_ext.ml"
@@ -15,4 +16,9 @@ Extraction "loxmodel_ext.ml"
   check_arrays check_kinds check_sprime check_nullable_first check_init check_items check_rows
   push_rune lex_tables g_lex table_auto nfa_auto nfa_start
   decode_row modes_wf mode_progress_ok mode_terminal_last mode_nstates
-  equiv_check closed.
+  equiv_check closed
+  re_auto re_start st_eqb wf_rulesb
+  build build_u encode_lex_row row_key varint
+  terminals token_to_string index_of
+  first_go first_go_seq first_spec nullable_spec first_seq_spec
+  resolve cell_conflict resolved_cell lalr_ref has_conflicts cell_at find_state_by_core.
